@@ -5,6 +5,17 @@
 //! StatusCondition: trigger value = "some ENABLED status changed since it was last read".
 //! Concurrent waiter actors block in `WaitSetAsync::wait()`; their start/return times and results
 //! are judged against the model's timeline afterwards.
+//!
+//! Raced resets (half of the cases, 1-2 episodes each): the interleaving "a blocked waiter is
+//! notified of a status change, but ANOTHER application task reads (resets) that status before the
+//! waiter gets to run; later the status changes again and nobody reads it". The scheduling delay
+//! of the waiter tasks is produced deterministically: every waiter polls its `wait()` future
+//! through a gate which the main actor closes just before the first change and opens right after
+//! its own status read (a descheduled waiter thread; API calls cost no virtual time in the
+//! simulation, so no executor policy alone would ever open this window). The wait that was pending
+//! may legitimately return an empty list; the waiters' loop "wait, handle, wait again" must then
+//! notice the second change within H_w like any other change (oracle (2), unchanged). Time spent
+//! behind the closed gate is not counted as blocked time.
 use crate::common::*;
 use crate::rec::kind_name;
 use dust_dds::dds_async::condition::StatusConditionAsync;
@@ -15,8 +26,11 @@ use dust_dds::infrastructure::sample_info::{ANY_INSTANCE_STATE, ANY_SAMPLE_STATE
 use dust_dds::infrastructure::status::StatusKind;
 use dust_dds::infrastructure::time::DurationKind;
 use simnet::*;
-use std::cell::RefCell;
+use std::cell::{Cell, RefCell};
+use std::future::Future;
+use std::pin::Pin;
 use std::rc::Rc;
+use std::task::{Context, Poll, Waker};
 use vcore::{Json, Report, Rng};
 
 const H_W: i64 = SEC;
@@ -25,6 +39,49 @@ const N_COND: usize = 3;
 const COND_NAME: [&str; 3] = ["writer", "reader", "subscriber"];
 /// statuses that are never raised by dust-dds: used to recognise a condition in wait()'s result
 const MARKER: [StatusKind; 3] = [StatusKind::LivelinessLost, StatusKind::LivelinessChanged, StatusKind::SampleLost];
+
+/// (condition, status) pairs a raced-reset episode can aim at: statuses that an application task can
+/// raise again at will and reset by reading
+const RACE_TARGETS: [(usize, StatusKind); 4] = [
+    (0, StatusKind::PublicationMatched),
+    (1, StatusKind::SubscriptionMatched),
+    (1, StatusKind::DataAvailable),
+    (2, StatusKind::DataOnReaders),
+];
+
+/// While closed, the gated futures are not polled (their task is "not scheduled").
+struct Gate {
+    closed: Cell<bool>,
+    wakers: RefCell<Vec<Waker>>,
+}
+
+impl Gate {
+    fn close(&self) {
+        self.closed.set(true);
+    }
+    fn open(&self) {
+        self.closed.set(false);
+        for w in self.wakers.borrow_mut().drain(..) {
+            w.wake();
+        }
+    }
+}
+
+struct Gated<'a, T> {
+    fut: Pin<Box<dyn Future<Output = T> + 'a>>,
+    gate: Rc<Gate>,
+}
+
+impl<'a, T> Future for Gated<'a, T> {
+    type Output = T;
+    fn poll(mut self: Pin<&mut Self>, cx: &mut Context<'_>) -> Poll<T> {
+        if self.gate.closed.get() {
+            self.gate.wakers.borrow_mut().push(cx.waker().clone());
+            return Poll::Pending;
+        }
+        self.fut.as_mut().poll(cx)
+    }
+}
 
 fn relevant(ci: usize) -> &'static [StatusKind] {
     match ci {
@@ -282,6 +339,10 @@ struct P {
     clock_tick: i64,
     jitter: i64,
     op_seed: u64,
+    /// indices of the operations that are raced-reset episodes (empty: none in this case)
+    race_at: Vec<u32>,
+    /// index into RACE_TARGETS
+    race_target: usize,
 }
 
 fn gen_params(rng: &mut Rng, thorough: bool) -> P {
@@ -297,7 +358,7 @@ fn gen_params(rng: &mut Rng, thorough: bool) -> P {
         waiter_conds.push(v);
         waiter_timeout_ms.push(*rng.pick(&[1500i64, 2500, 4000]));
     }
-    P {
+    let mut p = P {
         deadline: rng.chance(0.3),
         incompat: rng.chance(0.3),
         n_ops: 8 + rng.below(if thorough { 20 } else { 10 }) as u32,
@@ -308,7 +369,30 @@ fn gen_params(rng: &mut Rng, thorough: bool) -> P {
         clock_tick: *rng.pick(&[0i64, 0, 1, 1000]),
         jitter: *rng.pick(&[0i64, 0, 1000, 1_000_000]),
         op_seed: rng.next_u64(),
+        race_at: Vec::new(),
+        race_target: 0,
+    };
+    if rng.chance(0.5) {
+        p.race_target = rng.usize(RACE_TARGETS.len());
+        let first = 1 + rng.below(p.n_ops as u64 / 2) as u32;
+        p.race_at.push(first);
+        let second = first + 2 + rng.below(4) as u32;
+        if rng.bool() && second < p.n_ops {
+            p.race_at.push(second);
+        }
+        // one more waiter, on the targeted condition (sometimes together with another one), with a
+        // scenario timeout long enough to span an episode
+        let ci = RACE_TARGETS[p.race_target].0;
+        let mut v = vec![ci];
+        if rng.chance(0.25) {
+            v.push((ci + 1 + rng.usize(N_COND - 1)) % N_COND);
+            rng.shuffle(&mut v);
+        }
+        p.waiter_conds.push(v);
+        p.waiter_timeout_ms.push(6000);
+        p.n_waiters += 1;
     }
+    p
 }
 
 impl P {
@@ -326,6 +410,8 @@ impl P {
             .set("policy", format!("{:?}", self.policy))
             .set("clock_tick_ns", self.clock_tick)
             .set("sleep_jitter_ns", self.jitter)
+            .set("raced_reset_episodes_at_op", self.race_at.clone())
+            .set("raced_reset_status", if self.race_at.is_empty() { "-" } else { kind_name(RACE_TARGETS[self.race_target].1) })
     }
 }
 
@@ -336,6 +422,17 @@ struct WaitRec {
     t1: i64,
     /// None: our timeout fired while wait() was still pending
     returned: Option<Vec<usize>>,
+}
+
+/// One raced-reset episode: the waiters' gate was closed during [t_close, t_open]; in between the
+/// status changed and (if `reset_done`) was read by the main actor.
+#[derive(Clone, Debug)]
+struct Race {
+    ci: usize,
+    status: StatusKind,
+    t_close: i64,
+    t_open: i64,
+    reset_done: bool,
 }
 
 #[derive(Clone, Debug)]
@@ -354,6 +451,7 @@ struct Out {
     quiescent_checks: u32,
     quiescent_skipped: u32,
     enable_while_blocked: u32,
+    races: Vec<Race>,
 }
 
 fn mask_with_marker(ci: usize, m: &[StatusKind]) -> Vec<StatusKind> {
@@ -380,6 +478,7 @@ async fn scenario(w: World, p: P) -> Out {
         quiescent_checks: 0,
         quiescent_skipped: 0,
         enable_while_blocked: 0,
+        races: Vec::new(),
     };
     macro_rules! api {
         ($e:expr, $what:expr) => {
@@ -437,6 +536,7 @@ async fn scenario(w: World, p: P) -> Out {
     let waits: Rc<RefCell<Vec<WaitRec>>> = Rc::new(RefCell::new(Vec::new()));
     let waiter_err: Rc<RefCell<Option<String>>> = Rc::new(RefCell::new(None));
     let stop = Rc::new(RefCell::new(false));
+    let gate = Rc::new(Gate { closed: Cell::new(false), wakers: RefCell::new(Vec::new()) });
     let mut joins = Vec::new();
     for wi in 0..p.n_waiters as usize {
         let mut ws = WaitSetAsync::new();
@@ -444,6 +544,7 @@ async fn scenario(w: World, p: P) -> Out {
             let _ = ws.attach_condition(ConditionAsync::StatusCondition(conds[*ci].clone())).await;
         }
         let (sim2, waits2, stop2, err2) = (sim.clone(), waits.clone(), stop.clone(), waiter_err.clone());
+        let gate2 = gate.clone();
         let tmo = p.waiter_timeout_ms[wi] * MS;
         let mut wrng = Rng::new(p.op_seed ^ (0x77aa + wi as u64 * 131));
         joins.push(sim.spawn_local(async move {
@@ -452,7 +553,7 @@ async fn scenario(w: World, p: P) -> Out {
                     break;
                 }
                 let t0 = sim2.now();
-                let r = sim2.timeout(tmo, ws.wait()).await;
+                let r = sim2.timeout(tmo, Gated { fut: Box::pin(ws.wait()), gate: gate2.clone() }).await;
                 let t1 = sim2.now();
                 match r {
                     Ok(Ok(list)) => {
@@ -493,7 +594,127 @@ async fn scenario(w: World, p: P) -> Out {
     let mut n_match_writers = 1i32;
     let mut has_bad_reader = false;
     let mut has_bad_writer = false;
-    for _ in 0..p.n_ops {
+    let mut rrng = Rng::new(p.op_seed ^ 0x5ace_d0e5);
+    // the pieces of a raced-reset episode (same model updates as the ordinary operations below)
+    macro_rules! race_change {
+        ($st:expr) => {{
+            let t0 = sim.now();
+            match $st {
+                StatusKind::PublicationMatched => {
+                    out.model.update(t0, "event", |s| {
+                        if s.c[0].get(StatusKind::PublicationMatched) != Tri::T {
+                            s.c[0].set(StatusKind::PublicationMatched, Tri::U);
+                        }
+                    });
+                    let q = DataReaderQos { reliability: reliable(1000), ..Default::default() };
+                    let r = new_reader::<Msg>(&sbx, &topic_b, q).await;
+                    n_match_readers += 1;
+                    extra_entities.push(Box::new(r));
+                }
+                StatusKind::SubscriptionMatched => {
+                    out.model.update(t0, "event", |s| {
+                        if s.c[1].get(StatusKind::SubscriptionMatched) != Tri::T {
+                            s.c[1].set(StatusKind::SubscriptionMatched, Tri::U);
+                        }
+                    });
+                    let x = new_writer::<Msg>(&pb, &topic_a, wq.clone()).await;
+                    n_match_writers += 1;
+                    extra_entities.push(Box::new(x));
+                }
+                _ => {
+                    out.model.update(t0, "event", |s| {
+                        if s.c[1].get(StatusKind::DataAvailable) != Tri::T {
+                            s.c[1].set(StatusKind::DataAvailable, Tri::U);
+                        }
+                        if s.c[2].get(StatusKind::DataOnReaders) != Tri::T {
+                            s.c[2].set(StatusKind::DataOnReaders, Tri::U);
+                        }
+                    });
+                    api!(dw.write(msg(0, 0, seq, 16), None), "write");
+                    seq += 1;
+                    let t1 = sim.now();
+                    if p.deadline {
+                        out.model.dl.w_writes.push((t0, t1));
+                        out.model.dl.r_writes.push((t0, t1 + 55 * MS + 2 * p.jitter));
+                    }
+                }
+            }
+        }};
+    }
+    // the change has certainly happened (and nobody read the status): the model says "changed"
+    macro_rules! race_settle {
+        ($st:expr) => {{
+            match $st {
+                StatusKind::PublicationMatched => {
+                    if !wait_matched(&sim, &dw, n_match_readers, 20 * SEC).await {
+                        out.api_error = Some("additional reader did not match within 20 s".into());
+                        return out;
+                    }
+                    sim.sleep(200 * MS).await;
+                    let t = sim.now();
+                    out.model.update(t, "event", |s| s.c[0].set(StatusKind::PublicationMatched, Tri::T));
+                }
+                StatusKind::SubscriptionMatched => {
+                    if !wait_reader_matched(&sim, &dr, n_match_writers, 20 * SEC).await {
+                        out.api_error = Some("additional writer did not match within 20 s".into());
+                        return out;
+                    }
+                    sim.sleep(200 * MS).await;
+                    let t = sim.now();
+                    out.model.update(t, "event", |s| s.c[1].set(StatusKind::SubscriptionMatched, Tri::T));
+                }
+                _ => {
+                    sim.sleep(200 * MS).await;
+                    let t = sim.now();
+                    out.model.update(t, "event", |s| {
+                        s.c[1].set(StatusKind::DataAvailable, Tri::T);
+                        s.c[2].set(StatusKind::DataOnReaders, Tri::T);
+                    });
+                }
+            }
+        }};
+    }
+    // the main actor reads the status (which resets it)
+    macro_rules! race_reset {
+        ($st:expr) => {{
+            let t0 = sim.now();
+            match $st {
+                StatusKind::PublicationMatched => {
+                    out.model.update(t0, "event", |s| s.c[0].set(StatusKind::PublicationMatched, Tri::U));
+                    api!(dw.get_publication_matched_status(), "get_publication_matched_status");
+                    let t = sim.now();
+                    out.model.update(t, "event", |s| s.c[0].set(StatusKind::PublicationMatched, Tri::F));
+                }
+                StatusKind::SubscriptionMatched => {
+                    out.model.update(t0, "event", |s| s.c[1].set(StatusKind::SubscriptionMatched, Tri::U));
+                    api!(dr.get_subscription_matched_status(), "get_subscription_matched_status");
+                    let t = sim.now();
+                    out.model.update(t, "event", |s| s.c[1].set(StatusKind::SubscriptionMatched, Tri::F));
+                }
+                _ => {
+                    out.model.update(t0, "event", |s| {
+                        s.c[1].set(StatusKind::DataAvailable, Tri::U);
+                        s.c[2].set(StatusKind::DataOnReaders, Tri::U);
+                    });
+                    let r = if rrng.bool() {
+                        sim.timeout(10 * SEC, dr.take(i32::MAX, ANY_SAMPLE_STATE, ANY_VIEW_STATE, ANY_INSTANCE_STATE)).await
+                    } else {
+                        sim.timeout(10 * SEC, dr.read(i32::MAX, ANY_SAMPLE_STATE, ANY_VIEW_STATE, ANY_INSTANCE_STATE)).await
+                    };
+                    if r.is_err() {
+                        out.api_error = Some("take/read: no reply".into());
+                        return out;
+                    }
+                    let t = sim.now();
+                    out.model.update(t, "event", |s| {
+                        s.c[1].set(StatusKind::DataAvailable, Tri::F);
+                        s.c[2].set(StatusKind::DataOnReaders, Tri::F);
+                    });
+                }
+            }
+        }};
+    }
+    for op_i in 0..p.n_ops {
         // weighted choice of the next operation
         let weights: [(u64, u64); 12] = [
             (0, 3), (1, 0), (2, 4), (3, 3), (4, 3), (5, 1), (6, 1),
@@ -509,6 +730,9 @@ async fn scenario(w: World, p: P) -> Out {
                 break;
             }
             x -= wgt;
+        }
+        if p.race_at.contains(&op_i) {
+            kind = 12;
         }
         let mut long_idle = false;
         match kind {
@@ -699,6 +923,52 @@ async fn scenario(w: World, p: P) -> Out {
                     long_idle = true;
                 }
             }
+            12 => {
+                // ---- raced reset: change, read by ANOTHER task before the notified waiters run, change again
+                let (ci, st) = RACE_TARGETS[p.race_target];
+                out.ops.push(format!("raced_reset({})", kind_name(st)));
+                // (a) only `st` enabled on the condition and the status read: trigger value false, waiters block
+                let t0 = sim.now();
+                out.model.update(t0, "enable", |s| s.c[ci].mask_unknown = true);
+                api!(conds[ci].set_enabled_statuses(&mask_with_marker(ci, &[st])), "set_enabled_statuses");
+                let t = sim.now();
+                out.model.update(t, "enable", |s| {
+                    s.c[ci].mask = vec![st];
+                    s.c[ci].mask_unknown = false;
+                });
+                race_reset!(st);
+                sim.sleep((900 + rrng.below(300) as i64) * MS + 1).await;
+                // (b) the waiters are not scheduled from now on; first change; as soon as it shows, read the status
+                let t_close = sim.now();
+                gate.close();
+                race_change!(st);
+                let mut seen = false;
+                let t_poll = sim.now();
+                loop {
+                    if api!(conds[ci].get_trigger_value(), "get_trigger_value") {
+                        seen = true;
+                        break;
+                    }
+                    if sim.now() - t_poll > 2 * SEC {
+                        break;
+                    }
+                    sim.sleep(2 * MS).await;
+                }
+                if seen {
+                    race_reset!(st);
+                } else {
+                    // (never observed; judged like an ordinary change by the checks below)
+                    race_settle!(st);
+                }
+                let t_open = sim.now();
+                gate.open();
+                out.races.push(Race { ci, status: st, t_close, t_open, reset_done: seen });
+                // (c) the waiters run (their pending wait may return an empty list); second change, nobody reads it
+                sim.sleep(rrng.below(400) as i64 * MS + 1).await;
+                race_change!(st);
+                race_settle!(st);
+                long_idle = true;
+            }
             _ => {
                 out.ops.push("get_offered_deadline_missed_status".into());
                 let t0 = sim.now();
@@ -816,6 +1086,12 @@ fn evaluate(rep: &mut Report, p: &P, o: &Out, replay: &Json, poll_hash: u64, cas
             let mut run_start: Option<(i64, Option<StatusKind>, &'static str)> = None;
             let mut t = wr.t0;
             while t < wr.t1 - MS {
+                if o.races.iter().any(|e| e.t_close <= t && t <= e.t_open) {
+                    // the waiter was deliberately not scheduled
+                    run_start = None;
+                    t += step;
+                    continue;
+                }
                 let (v, st, via) = o.model.trigger_at(*ci, t);
                 if v == Tri::T {
                     if run_start.is_none() {
@@ -828,11 +1104,25 @@ fn evaluate(rep: &mut Report, p: &P, o: &Out, replay: &Json, poll_hash: u64, cas
                     }
                     if t - s0 >= H_W {
                         let status = st0.map(kind_name).unwrap_or("unknown");
+                        let mut via0 = via0;
+                        // this very wait() was pending when that status changed and was read by another task
+                        // (a read/take resets DATA_AVAILABLE and DATA_ON_READERS alike)
+                        let raced = |e: &Race| {
+                            let data = |k: StatusKind| k == StatusKind::DataAvailable || k == StatusKind::DataOnReaders;
+                            match st0 {
+                                Some(k) if data(e.status) => (*ci == 1 && k == StatusKind::DataAvailable) || (*ci == 2 && k == StatusKind::DataOnReaders),
+                                Some(k) => *ci == e.ci && k == e.status,
+                                None => false,
+                            }
+                        };
+                        if via0 == "event" && o.races.iter().any(|e| e.reset_done && wr.t0 < e.t_close && e.t_open <= s0 && raced(e)) {
+                            via0 = "change_after_raced_reset";
+                        }
                         fire(
                             rep,
                             format!("missed_wake|via={}|status={}", via0, status),
                             format!(
-                                "waiter {} blocked in wait() from +{} ms to +{} ms ({}) although its attached {} condition was true from +{} ms on ({} through {}): more than H_w = 1 s",
+                                "waiter {} blocked in wait() from +{} ms to +{} ms ({}) although its attached {} condition was true from +{} ms on ({} through {}{}): more than H_w = 1 s",
                                 wr.waiter,
                                 (wr.t0 - EPOCH_NS) / MS,
                                 (wr.t1 - EPOCH_NS) / MS,
@@ -840,7 +1130,12 @@ fn evaluate(rep: &mut Report, p: &P, o: &Out, replay: &Json, poll_hash: u64, cas
                                 COND_NAME[*ci],
                                 (s0 - EPOCH_NS) / MS,
                                 if via0 == "enable" { "set_enabled_statuses enabling an already changed status" } else { "a status change" },
-                                status
+                                status,
+                                if via0 == "change_after_raced_reset" {
+                                    "; this wait() had earlier been notified of a change of that status which another task read before the waiter ran, so it found nothing triggered"
+                                } else {
+                                    ""
+                                }
                             ),
                         );
                         break;
@@ -880,6 +1175,30 @@ fn evaluate(rep: &mut Report, p: &P, o: &Out, replay: &Json, poll_hash: u64, cas
                     );
                 }
             }
+        }
+    }
+    for e in &o.races {
+        rep.stat("raced_reset_episodes", 1);
+        if !e.reset_done {
+            rep.stat("raced_reset_episodes_change_never_seen", 1);
+            continue;
+        }
+        rep.stat(&format!("raced_reset_{}", kind_name(e.status)), 1);
+        let mut any = false;
+        for wr in &o.waits {
+            if !p.waiter_conds[wr.waiter].contains(&e.ci) || wr.t0 >= e.t_close || wr.t1 < e.t_open {
+                continue;
+            }
+            any = true;
+            rep.stat("waits_pending_across_raced_reset", 1);
+            match &wr.returned {
+                Some(l) if wr.t1 - e.t_open < MS && l.is_empty() => rep.stat("waits_returned_empty_list_after_raced_reset", 1),
+                Some(_) if wr.t1 - e.t_open < MS => rep.stat("waits_returned_other_conditions_after_raced_reset", 1),
+                _ => rep.stat("waits_still_pending_after_raced_reset", 1),
+            }
+        }
+        if any {
+            rep.stat("raced_reset_episodes_with_pending_wait", 1);
         }
     }
     rep.stat("waits_completed", completed);
